@@ -13,6 +13,21 @@ pub fn tapped<T>(f: impl FnOnce() -> T) -> (T, Vec<Event>) {
     }
 }
 
+/// Run a PROVER call with the tap armed and return the events of the prover's own protocol run only: everything up to the
+/// challenge that follows the absorption of `B`. A prover may go on to do more on transcripts of its own afterwards (check its
+/// proof by running the verifier on a clone of the caller's transcript, re-derive its challenges, ..); that is not part of
+/// what it sends, absorbs into the caller's transcript or draws its nonces from.
+pub fn tapped_prover<T>(f: impl FnOnce() -> T) -> (T, Vec<Event>) {
+    let (r, mut ev) = tapped(f);
+    let b_at = ev.iter().position(|e| matches!(e, Event::Append { label, .. } if label.as_slice() == b"B"));
+    if let Some(b) = b_at {
+        if let Some(c) = ev[b..].iter().position(|e| matches!(e, Event::Challenge { .. })) {
+            ev.truncate(b + c + 1);
+        }
+    }
+    (r, ev)
+}
+
 /// Outputs of the PROTOCOL's `challenge_bytes` calls (labels `y`, `z`, `e`), in order. Challenges that a verifier draws from
 /// transcripts of its own (for its batch weights, say) carry other labels and are not the protocol's.
 pub fn challenges(ev: &[Event]) -> Vec<Vec<u8>> {
